@@ -64,7 +64,13 @@ def keptIntervalsAt (bounds : List Int) (s : Nat) : List (Int × Int) :=
 def flatOf (ivs : List (Int × Int)) : List Int := ivs.flatMap fun iv => [iv.1, iv.2]
 
 /-- `flat` is the flattened list of the grid intervals at SOME regular stride `s ≥ 1` starting with the first,
-at most `nKept` of them -/
+at most `nKept` of them.
+The statement says "never MORE than the requested number"; it does not say "as many as the requested number
+allows".  So this predicate — faithful to the words — also accepts a selector that keeps fewer chunks than it could,
+down to the first chunk alone for every `nKept ≥ 1` (`keptOKAny [0,10,20,30] 3 [0,10] = true`, stride 3).  That the
+code keeps as many as a regular stride allows is a fact about the MODEL (`stride_minimal`: its stride is the smallest
+one that keeps at most `nKept` chunks); on the real selector it is checked by the exact comparison of `chunks_kept`
+with the model — a CORR verdict, not a clause of the property. -/
 def keptOKAny (bounds : List Int) (nKept : Nat) (flat : List Int) : Bool :=
   (List.range bounds.length).any fun s0 =>
     flat == flatOf (keptIntervalsAt bounds (s0 + 1)) &&
@@ -98,6 +104,15 @@ def SpecOKIn (ivs : List (Int × Int)) (x : Inp) (out : List Nat) : Bool :=
         decide ((got.length : Int) = n) && got.all (e.contains ·)
       else got == e
     | none => got == e)
+
+/-- The same input seen through a map `f` of the time axis (spike times and chunk bounds).  The model's times are
+`Int`; the real selector takes any NumPy numbers (floats, negative values, fractional bounds — `test_array.py` uses a
+grid `[0.0, 1.1, 2.2, …]`).  Only the ORDER of times and bounds enters the selection (`searchsorted`), so a strictly
+increasing `f` changes nothing (`selection_order_invariant`): every finite set of rational times and bounds is the
+image of integers under such a map (multiply by a common denominator), which is how the correspondence run feeds
+fractional / negative times to the real code while the model keeps integers.  (NaN times have no place in any order:
+outside.) -/
+def Inp.mapTimes (f : Int → Int) (x : Inp) : Inp := { x with times := x.times.map f, bounds := x.bounds.map f }
 
 /-- the inputs the real selector accepts: a grid of ≥ 2 strictly increasing bounds, at least one chunk to keep
 (`n_chunks_kept = 0` makes the constructor raise ZeroDivisionError), one time per spike (a spike without a
